@@ -1,4 +1,123 @@
-/- helper lemmas (LoopA) -/
+/- helper lemmas (LoopA): facts about `St.emit`, `St.finish`, `handle`, `runLoop`. -/
 import TinyHttpModel.WireSpec
 namespace TH
+
+@[simp] theorem St.emit_out (s : St) (st : Nat) (bs : Option Bytes) (f : Bool) :
+    (s.emit st bs f).out = s.out ++ bs.getD [] := rfl
+
+@[simp] theorem St.emit_delivered (s : St) (st : Nat) (bs : Option Bytes) (f : Bool) :
+    (s.emit st bs f).delivered = s.delivered := rfl
+
+@[simp] theorem St.emit_statuses (s : St) (st : Nat) (bs : Option Bytes) (f : Bool) :
+    (s.emit st bs f).statuses = s.statuses ++ [st] := rfl
+
+theorem St.emit_flushed_true (s : St) (st : Nat) (bs : Option Bytes) :
+    (s.emit st bs true).flushed = (s.emit st bs true).out.length := rfl
+
+@[simp] theorem St.finish_out (s : St) (e : ConnEnd) : (s.finish e).out = s.out := rfl
+@[simp] theorem St.finish_delivered (s : St) (e : ConnEnd) : (s.finish e).delivered = s.delivered := rfl
+@[simp] theorem St.finish_statuses (s : St) (e : ConnEnd) : (s.finish e).statuses = s.statuses := rfl
+@[simp] theorem St.finish_ending (s : St) (e : ConnEnd) : (s.finish e).ending = e := rfl
+@[simp] theorem St.finish_flushed_closed (s : St) : (s.finish .closed).flushed = s.out.length := rfl
+
+/-- `handle` only appends to `out`, and appends exactly one `Delivered` record that carries the
+    parsed head. -/
+theorem handle_spec (s : St) (h : Head) (fr : Framing) (last : Bool) (a : Action) (body : Body)
+    (bs : Bytes) (fin : EndState) :
+    ∃ o d, (handle s h fr last a body bs fin).1.out = s.out ++ o ∧
+      (handle s h fr last a body bs fin).1.delivered = s.delivered ++ [d] ∧
+      d.method = h.method ∧ d.url = h.url ∧ d.version = h.version ∧ d.headers = h.headers ∧
+      d.bodyLength = fr.bodyLength := by
+  unfold handle
+  simp only []
+  obtain ⟨o1, ho1, hd1⟩ : ∃ o1, (if (decide (a.asReaderCalls > 0) && fr.expectContinue) = true then
+      s.emit 100 (printResp (Resp.empty 100) [] h.version h.headers true none) true else s).out = s.out ++ o1
+      ∧ (if (decide (a.asReaderCalls > 0) && fr.expectContinue) = true then
+      s.emit 100 (printResp (Resp.empty 100) [] h.version h.headers true none) true else s).delivered
+        = s.delivered := by
+    split
+    · exact ⟨_, rfl, rfl⟩
+    · exact ⟨[], by simp, rfl⟩
+  generalize (if (decide (a.asReaderCalls > 0) && fr.expectContinue) = true then
+      s.emit 100 (printResp (Resp.empty 100) [] h.version h.headers true none) true else s) = s1 at *
+  generalize (if (decide (a.asReaderCalls > 0) && decide (a.readTotal > 0)) = true then
+      Body.readUpTo (a.readTotal + 1) body (max a.bufSize 1) a.readTotal bs fin
+        else ([], none, body, bs)) = R
+  repeat' split
+  all_goals first
+    | exact ⟨o1, _, ho1, by rw [hd1], rfl, rfl, rfl, rfl, rfl⟩
+    | (simp only [St.emit_out, St.emit_delivered, ho1, hd1, List.append_assoc]
+       exact ⟨_, _, rfl, rfl, rfl, rfl, rfl, rfl, rfl⟩)
+
+theorem handle_out_prefix (s : St) (h : Head) (fr : Framing) (last : Bool) (a : Action) (body : Body)
+    (bs : Bytes) (fin : EndState) :
+    ∃ o, (handle s h fr last a body bs fin).1.out = s.out ++ o := by
+  obtain ⟨o, _, ho, _⟩ := handle_spec s h fr last a body bs fin
+  exact ⟨o, ho⟩
+
+/-- the loop only appends to `out`. -/
+theorem runLoop_out_prefix (fuel : Nat) : ∀ (idx : Nat) (s : St) (bs : Bytes) (fin : EndState) (script : Script),
+    ∃ o, (runLoop fuel idx s bs fin script).out = s.out ++ o := by
+  induction fuel with
+  | zero => intro idx s bs fin script; exact ⟨[], by simp [runLoop]⟩
+  | succ fuel ih =>
+    intro idx s bs fin script
+    rw [runLoop]
+    split
+    · exact ⟨_, rfl⟩
+    · exact ⟨_, rfl⟩
+    · exact ⟨[], by simp⟩
+    · exact ⟨[], by simp⟩
+    · exact ⟨[], by simp⟩
+    · rename_i h rest hh
+      split
+      · exact ⟨_, rfl⟩
+      · exact ⟨_, rfl⟩
+      · rename_i fr hf
+        simp only []
+        have hfin : ∃ o, (if (fin == EndState.open) = true then s.finish ConnEnd.waiting
+            else s.finish ConnEnd.closed).out = s.out ++ o := by
+          split <;> exact ⟨[], by simp⟩
+        have htail : ∃ o, (if (⟨Extracted.maxVersion.1, Extracted.maxVersion.2⟩ : Version).lt h.version = true then
+              match Body.drain (List.length (initialBody fr.kind rest).snd + 2) (initialBody fr.kind rest).fst
+                  (initialBody fr.kind rest).snd fin with
+              | some rest2 => runLoop fuel idx (s.emit 505 (some print505) true) rest2 fin script
+              | none => (s.emit 505 (some print505) true).finish ConnEnd.waiting
+            else
+              if (handle s h fr (isLastRequest h.version h.headers) (script idx) (initialBody fr.kind rest).fst
+                    (initialBody fr.kind rest).snd fin).2.snd = true then
+                (handle s h fr (isLastRequest h.version h.headers) (script idx) (initialBody fr.kind rest).fst
+                    (initialBody fr.kind rest).snd fin).fst.finish ConnEnd.waiting
+              else if isLastRequest h.version h.headers = true then
+                (handle s h fr (isLastRequest h.version h.headers) (script idx) (initialBody fr.kind rest).fst
+                    (initialBody fr.kind rest).snd fin).fst.finish ConnEnd.closed
+              else runLoop fuel (idx + 1)
+                (handle s h fr (isLastRequest h.version h.headers) (script idx) (initialBody fr.kind rest).fst
+                    (initialBody fr.kind rest).snd fin).fst
+                (handle s h fr (isLastRequest h.version h.headers) (script idx) (initialBody fr.kind rest).fst
+                    (initialBody fr.kind rest).snd fin).2.fst fin script).out = s.out ++ o := by
+          split
+          · split
+            · rename_i rest2 hd
+              obtain ⟨o, ho⟩ := ih idx (s.emit 505 (some print505) true) rest2 fin script
+              exact ⟨_, by rw [ho, St.emit_out, List.append_assoc]⟩
+            · exact ⟨_, rfl⟩
+          · obtain ⟨o1, ho1⟩ := handle_out_prefix s h fr (isLastRequest h.version h.headers) (script idx)
+              (initialBody fr.kind rest).1 (initialBody fr.kind rest).2 fin
+            split
+            · exact ⟨o1, by simp [ho1]⟩
+            · split
+              · exact ⟨o1, by simp [ho1]⟩
+              · obtain ⟨o, ho⟩ := ih (idx + 1) (handle s h fr (isLastRequest h.version h.headers) (script idx)
+                  (initialBody fr.kind rest).1 (initialBody fr.kind rest).2 fin).1
+                  (handle s h fr (isLastRequest h.version h.headers) (script idx)
+                  (initialBody fr.kind rest).1 (initialBody fr.kind rest).2 fin).2.1 fin script
+                exact ⟨o1 ++ o, by rw [ho, ho1, List.append_assoc]⟩
+        split
+        · split
+          · exact hfin
+          · exact htail
+        · rw [if_neg (by decide)]
+          exact htail
+
 end TH
